@@ -33,7 +33,7 @@ ASSUMPTIONS = [
     "non-integer positions (floats, strings, None) are outside the quantifier (arbitrary integer positions) and not driven",
 ]
 REQUIRED = {"all": ["set_calls", "clear_calls", "positions_zero_or_negative", "positions_beyond_end", "positions_non_sty",
-                    "positions_duplicate", "distribution_checked", "distributions_over_9_or_more_sites", "kappa_after_checked", "kappa_after_with_cached_dmax",
+                    "positions_duplicate", "distribution_checked", "distributions_over_9_or_more_sites", "position_lists_that_look_like_a_mask", "positions_beyond_64_bits", "kappa_after_checked", "kappa_after_with_cached_dmax",
                     "clear_then_phosphosequence", "out_of_order_sites", "long_ignored_position_histories"]}
 NWORDS = {"quick": 400, "thorough": 5000}
 
@@ -78,9 +78,20 @@ def pick_positions(rng, seq, np):
             out.append(rng.randint(1, N))
     if rng.random() < 0.3 and out:
         out.append(out[0])
+    if rng.random() < 0.12:
+        # exactly one entry per residue, all 0 or 1: still a list of POSITIONS (0 is no position, 1 is the first residue)
+        out = [rng.choice([0, 1]) for _ in range(N)]
+        _odd[0] += 1
     if rng.random() < 0.15:
         out = [np.int64(x) for x in out]
+    elif rng.random() < 0.1:
+        # positions far outside any machine integer are outside the sequence like any other
+        out.insert(rng.randint(0, len(out)), rng.choice([2 ** 63, 2 ** 64, 10 ** 30, -2 ** 70, 2 ** 63 - 1, -2 ** 63 - 1]))
+        _odd[1] += 1
     return out
+
+
+_odd = [0, 0]
 
 
 def judge(case, rep, S):
@@ -89,6 +100,9 @@ def judge(case, rep, S):
     seq = case["s"]
     N = len(seq)
     rng = gen.sub_rng(case["o"], ID)
+    for k_, nm_ in enumerate(("position_lists_that_look_like_a_mask", "positions_beyond_64_bits")):
+        if rep.counters.get(nm_, 0) < _odd[k_]:
+            rep.cnt(nm_, _odd[k_] - rep.counters.get(nm_, 0))
     obj = SP(seq)
     model = []
     word = []
